@@ -986,6 +986,33 @@ example :
   refine ⟨_, rfl, rfl, _, rfl, ?_⟩
   decide +kernel
 
+/-- **window on a file, any combination of fields**: the script always finishes; each of obs and fcst
+is absent in the output iff it is absent in the input, a field that is present is turned into windows
+(`window3`) with the dimensions unchanged, and all other content is copied.  No hypothesis that both
+fields are present (the script used to crash on such a file). -/
+theorem C20_window_file (I : Interval) (f : VFile) :
+    ((f.obs = none → (windowFile I f).obs = none) ∧
+      ∀ a, f.obs = some a → (windowFile I f).obs = some (window3 I (f.leads.map XR.fin) a)) ∧
+    ((f.fcst = none → (windowFile I f).fcst = none) ∧
+      ∀ a, f.fcst = some a → (windowFile I f).fcst = some (window3 I (f.leads.map XR.fin) a)) ∧
+    (∀ leads a, (window3 I leads a).T = a.T ∧ (window3 I leads a).L = a.L ∧ (window3 I leads a).S = a.S) ∧
+    (windowFile I f).name = f.name ∧ (windowFile I f).units = f.units ∧ (windowFile I f).times = f.times
+      ∧ (windowFile I f).leads = f.leads ∧ (windowFile I f).ids = f.ids ∧ (windowFile I f).lats = f.lats
+      ∧ (windowFile I f).lons = f.lons ∧ (windowFile I f).elevs = f.elevs := by
+  refine ⟨⟨?_, ?_⟩, ⟨?_, ?_⟩, fun _ _ => ⟨rfl, rfl, rfl⟩, rfl, rfl, rfl, rfl, rfl, rfl, rfl, rfl⟩ <;>
+    simp +contextual [windowFile]
+
+/-- a file with obs only (`win below= 0 … leads 0,1,2 obs=0,0,1 fcst=none`), which used to crash: the
+dry spell lengths are 2,1,0 and no fcst is written -/
+example :
+    let f : VFile := ⟨"T", "K", [0], [0, 1, 2], [fin 1], [fin 0], [fin 0], [fin 0],
+      some ⟨1, 3, 1, fun _ l _ => [fin 0, fin 0, fin 1].getD l nan⟩, none, 0, fun _ _ _ _ => nan⟩
+    let g := windowFile ⟨ninf, fin 0, false, true⟩ f
+    g.fcst = none ∧
+      ∃ b, g.obs = some b ∧ [b.cell 0 0 0, b.cell 0 1 0, b.cell 0 2 0] = [fin 2, fin 1, fin 0] := by
+  refine ⟨rfl, _, rfl, ?_⟩
+  decide +kernel
+
 /-- **Preservation** (structural): accumulate and window copy name, units, times, lead times and
 location metadata and keep the dimensions of both fields; ens2prob copies the whole input
 (including obs and fcst) next to the requested thresholds and levels; expandverif copies name,
@@ -996,9 +1023,11 @@ theorem C20_preserve :
       ∧ g.lats = f.lats ∧ g.lons = f.lons ∧ g.elevs = f.elevs
       ∧ (g.obs.map fun a => (a.T, a.L, a.S)) = (f.obs.map fun a => (a.T, a.L, a.S))
       ∧ (g.fcst.map fun a => (a.T, a.L, a.S)) = (f.fcst.map fun a => (a.T, a.L, a.S)))
-    ∧ (∀ I (f g : VFile), windowFile I f = some g →
+    ∧ (∀ I (f g : VFile), windowFile I f = g →
       g.name = f.name ∧ g.units = f.units ∧ g.times = f.times ∧ g.leads = f.leads ∧ g.ids = f.ids
-      ∧ g.lats = f.lats ∧ g.lons = f.lons ∧ g.elevs = f.elevs)
+      ∧ g.lats = f.lats ∧ g.lons = f.lons ∧ g.elevs = f.elevs
+      ∧ (g.obs.map fun a => (a.T, a.L, a.S)) = (f.obs.map fun a => (a.T, a.L, a.S))
+      ∧ (g.fcst.map fun a => (a.T, a.L, a.S)) = (f.fcst.map fun a => (a.T, a.L, a.S)))
     ∧ (∀ thr qs p (f : VFile), (ens2probFile thr qs p f).base = f
       ∧ (ens2probFile thr qs p f).thresholds = thr ∧ (ens2probFile thr qs p f).quantiles = qs)
     ∧ (∀ inits oleads (f : VFile) (g : ExpandFile), expandFile inits oleads f = some g →
@@ -1023,10 +1052,10 @@ theorem C20_preserve :
         have d := C20_accumulate_axis axis w ign a b hacc
         simp [hb, d.1, d.2.1, d.2.2.1]
   · intro I f g h
-    unfold windowFile at h
-    split at h
-    · cases h; exact ⟨rfl, rfl, rfl, rfl, rfl, rfl, rfl, rfl⟩
-    · cases h
+    subst h
+    refine ⟨rfl, rfl, rfl, rfl, rfl, rfl, rfl, rfl, ?_, ?_⟩
+    · cases hfo : f.obs <;> simp [windowFile, window3, hfo]
+    · cases hff : f.fcst <;> simp [windowFile, window3, hff]
   · intro thr qs p f
     exact ⟨rfl, rfl, rfl⟩
   · intro inits oleads f g h
